@@ -253,11 +253,15 @@ def r03_4(ctx: Ctx) -> None:
     appends = [c for c in calls(rr) if last_attr(c) == "append" and dotted(c.func) and "trimmed" in dotted(c.func)]
     if not appends:
         raise AnalysisError("remove_redundant_protoclusters: result append not found")
+    from ..flow import path_facts
+    rcfg = CFG(rr)
     for app in appends:
-        gs = guards(app, stop=rr)
-        flag_tests = [(t, pol) for t, pol in gs if isinstance(t, ast.UnaryOp) or isinstance(t, ast.Name)]
-        names = {n.id for t, _ in gs for n in ast.walk(t) if isinstance(n, ast.Name)}
-        ok = bool(names)
+        loops_of_app = enclosing_loops(app, stop=rr)
+        gs = [(e, t) for e, t in path_facts(rcfg, app)
+              if loops_of_app and any(a is loops_of_app[0] for a in _anc(e, rr))]
+        # the flag: a bare name tested false on the way to the append
+        names = {e.id for e, t in gs if isinstance(e, ast.Name) and not t}
+        ok = len(names) == 1 and len(gs) == 1
         flag = sorted(names)[0] if names else ""
         # every assignment flag = True lies inside a loop over `.superiors`
         for node in walk_local(rr):
@@ -270,7 +274,7 @@ def r03_4(ctx: Ctx) -> None:
                        "a protocluster is marked redundant only while iterating its rule's superiors",
                        form=" > ".join(txt(lp.iter) for lp in reversed(loops)))
         ctx.ob("R03.4", CP, app, "remove_redundant_protoclusters", "kept unless redundant", ok,
-               "every cluster not marked redundant is kept", form=f"guards={[txt(t) for t, _ in gs]}")
+               "every cluster not marked redundant is kept", form=f"guards={[(txt(t), pol) for t, pol in gs]}")
     # the pipeline in find_protoclusters: only these three post-processing calls rebind `clusters`
     rebinding = []
     for node in walk_local(func):
